@@ -136,6 +136,7 @@ class Sched:
       self.log.append([len(self.log), vt.name, op, obj if isinstance(obj, str) else getattr(obj, "vname", type(obj).__name__),
                        list(args), None])
       self.last = vt
+      self.last_rec = len(self.log) - 1
       vt.sem.release()
       self.baton.acquire()
       for ob in self.observers:
@@ -157,6 +158,7 @@ class Sched:
     self.log.append(rec)
     self.choices.append((vt.name, sorted(x.name for x in self.threads if x.state == "parked" and x.is_enabled())))
     self.last = vt
+    self.last_rec = len(self.log) - 1
     vt.sem.release()
     self.baton.acquire()
     for ob in self.observers:
